@@ -135,3 +135,36 @@ class GlueEngine:
         san = "ERROR: AddressSanitizer" in err or "runtime error:" in err
         return {"reproduced": env_rc == 1 or san, "exit": env_rc, "output": (out[-1500:] + "\n" + err[-1200:]), "args": args,
                 "text": " ".join(args), "bytes": "", "rc": env_rc, "options": None, "sanitizer": san}
+
+
+class OsEngine(GlueEngine):
+    """GLUE engine with the OS model: the library's calls to malloc/free/mmap/
+    mremap/munmap/open/fstat/close/fopen/fwrite/fclose are redirected (by a
+    wrapper translation unit, no change to /repo) to /verif/c/vf_os.c."""
+
+    def __init__(self, pid, tier, mem_buffer=None, stubs=False):
+        self.pid = pid
+        self.tier = tier
+        self.wd = core.workdir("vf-os")
+        self.tb = core.table_bounds(self.wd)
+        pre = ['#define VF_OS_REDIRECT 1', '#include "vf_os.h"']
+        if mem_buffer is not None:
+            pre += ['#include "common.h"', '#undef MEM_BUFFER', '#define MEM_BUFFER %d' % mem_buffer]
+        self.file_defs = {"assemblyline.c": list(pre), "parser.c": list(pre)}
+        self.lib = core.build_lib(self.wd, "os", file_defs=self.file_defs)
+        self.stubs = stubs
+        self.timeout = 900 if tier == "quick" else 3600
+        self.known = [k for k in core.load_known() if k.get("status") == "open" and k.get("engine") == "glue"]
+
+    def replay(self, tag, cfile, defs, inputs, common, native_extra=()):
+        srcs = [os.path.join(core.CDIR, cfile)] + [os.path.join(core.CDIR, c) for c in common if c != "libc_models.c"] + \
+            core.wrapped_sources(self.wd, "osn", core.LIB_SOURCES, self.file_defs)
+        try:
+            exe = core.build_native(self.wd, tag + ".replay", srcs, defs=defs, sanitize=False)
+        except core.MachineryError as e:
+            return {"reproduced": False, "output": "native build failed: " + str(e)[-800:], "args": []}
+        args = ["%d=%d" % (k, val) for k, val in sorted(inputs.items())]
+        rc, out, err, _, to = core.run([exe] + args, timeout=30, limit=False)
+        crashed = rc < 0 or rc >= 128
+        return {"reproduced": rc == 1 or crashed, "exit": rc, "output": (out[-1500:] + "\n" + err[-800:]), "args": args,
+                "text": " ".join(args), "bytes": "", "rc": rc, "options": None, "crashed": crashed}
